@@ -1,25 +1,14 @@
-(* Witness for the known finding of C27: in a diamond A; B(A); C(A); D(B, C) an unloaded seed typed B (a reference declared as B was
-   loaded first) for a row stored as D makes a lookup through the sibling branch C answer "not found" although D is a C:
-   _find_in_cache_ rejects unrelated (cls, entity) pairs before the seed is loaded and refined. *)
+(* Witnesses for the known findings of C27 (diamond K0; K1(K0); K2(K0); K3(K1, K2)). *)
 From Coq Require Import ZArith List Bool Lia.
 Require Import PonyV.Base.PyBase PonyV.Model.C27Inherit PonyV.Proofs.C27Proofs.
 #[local] Open Scope nat_scope.
-
-Theorem C27_lookup_seed_refuted_sibling_branch :
-  valid s_abcd = true /\ find_in_cache s_abcd true 2 1 true 3 = NotFound /\ lookup_spec s_abcd 2 3 = Found 3.
-Proof. exact seed_sibling_hides. Qed.
-Print Assumptions C27_lookup_seed_refuted_sibling_branch.
 
 (* two references typed by the sibling branches K1 and K2 to one K3 object: the second one met in a session is a "class change" *)
 Theorem C27_refine_refuted_sibling_types : refine s_abcd 1 2 = None /\ family s_abcd 1 3 /\ family s_abcd 2 3.
 Proof. exact refine_sibling_types. Qed.
 Print Assumptions C27_refine_refuted_sibling_types.
 
-(* iterating a many-to-many collection typed K0, and reading a K0-typed reference of an unpickled object, hand out the placeholder
-   of a stored K3 object with class K0 (no refinement on these two paths) *)
-Theorem C27_collection_item_refuted : collection_item_class 0 3 <> 3 /\ family s_abcd 0 3.
-Proof. exact collection_item_unrefined. Qed.
-Print Assumptions C27_collection_item_refuted.
+(* reading a K0-typed reference of an unpickled object hands out the placeholder of a stored K3 object with class K0 *)
 Theorem C27_unpickled_reference_refuted : unpickled_ref_class 0 3 <> 3.
 Proof. exact unpickled_ref_unrefined. Qed.
 Print Assumptions C27_unpickled_reference_refuted.
